@@ -6,6 +6,8 @@ import os
 import numpy as np
 from hypothesis import strategies as st
 
+from ..core import sampled_from  # noqa: E402
+
 from .. import build, meshgen, refmodel, writers
 from .. import sphere as S
 from ..core import Failure
@@ -40,7 +42,7 @@ FORMATS = ["ugrid", "ugrid", "ugrid", "mpas", "mpas-dual", "scrip", "exodus", "e
 def _mesh(draw, big, tri_only=False, manifold=False):
     if tri_only:
         return draw(meshgen.hull_mesh(4, 22 if big else 12, partial=False, merge=False))
-    fam = draw(st.sampled_from(["hull", "hull", "voronoi", "latlon", "solid"]))
+    fam = draw(sampled_from(["hull", "hull", "voronoi", "latlon", "solid"]))
     if fam == "hull":
         m = draw(meshgen.hull_mesh(4, 26 if big else 12, partial=True))
     elif fam == "voronoi":
@@ -56,35 +58,35 @@ def _mesh(draw, big, tri_only=False, manifold=False):
 @st.composite
 def _case(draw, tier):
     big = tier != "quick"
-    fmt = draw(st.sampled_from(FORMATS))
+    fmt = draw(sampled_from(FORMATS))
     d = {}
     mesh = None
     if fmt == "ugrid":
         mesh = draw(_mesh(big))
         d = {
-            "start_index": draw(st.sampled_from([None, 0, 1, 1])),
-            "fill": draw(st.sampled_from([None, -1, -999, 999999, "int64min", "nan"])),
-            "dtype": draw(st.sampled_from(["int32", "int64", "float64"])),
+            "start_index": draw(sampled_from([None, 0, 1, 1])),
+            "fill": draw(sampled_from([None, -1, -999, 999999, "int64min", "nan"])),
+            "dtype": draw(sampled_from(["int32", "int64", "float64"])),
             "names": draw(st.integers(0, 2)),
             "lon360": draw(st.booleans()),
             "face_coords": draw(st.booleans()),
             "centres_lon360": draw(st.booleans()),
-            "extras": draw(st.sampled_from([[], [], ["edge_node_connectivity"], ["edge_node_connectivity", "face_edge_connectivity"], ["edge_node_connectivity", "face_edge_connectivity", "edge_face_connectivity"]])),
+            "extras": draw(sampled_from([[], [], ["edge_node_connectivity"], ["edge_node_connectivity", "face_edge_connectivity"], ["edge_node_connectivity", "face_edge_connectivity", "edge_face_connectivity"]])),
             "edge_seed": draw(st.integers(0, 99)),
             "dim_attrs": draw(st.booleans()),
-            "extra_cols": draw(st.sampled_from([0, 0, 1])),
+            "extra_cols": draw(sampled_from([0, 0, 1])),
         }
         if d["fill"] == "int64min":
             d["dtype"] = "int64"
     elif fmt in ("mpas", "mpas-dual"):
         mesh = draw(meshgen.voronoi_mesh(6, 20 if big else 12, renumber=False))
         d = {
-            "padding": draw(st.sampled_from(["zeros", "repeat-last", "garbage"])),
-            "radius": draw(st.sampled_from([1.0, 6371229.0])),
+            "padding": draw(sampled_from(["zeros", "repeat-last", "garbage"])),
+            "radius": draw(sampled_from([1.0, 6371229.0])),
             "edge_seed": draw(st.integers(0, 99)),
-            "max_edges_extra": draw(st.sampled_from([0, 0, 2])),
-            "int_dtype": draw(st.sampled_from(["int32", "int64"])),
-            "coords": "both" if fmt == "mpas-dual" else draw(st.sampled_from(["both", "latlon", "xyz"])),  # the MPAS spec lists both
+            "max_edges_extra": draw(sampled_from([0, 0, 2])),
+            "int_dtype": draw(sampled_from(["int32", "int64"])),
+            "coords": "both" if fmt == "mpas-dual" else draw(sampled_from(["both", "latlon", "xyz"])),  # the MPAS spec lists both
         }
     elif fmt == "scrip":
         mesh = draw(_mesh(big))
@@ -92,44 +94,44 @@ def _case(draw, tier):
     elif fmt == "exodus":
         mesh = draw(_mesh(big))
         d = {
-            "coord": draw(st.sampled_from(["coord", "xyz"])),
-            "blocks": draw(st.sampled_from(["one", "by-size", "by-size-desc", "runs-1", "runs-2", "runs-4"])),
-            "dtype": draw(st.sampled_from(["int32", "int64"])),
-            "radius": draw(st.sampled_from([1.0, 1.0, 2.5])),
+            "coord": draw(sampled_from(["coord", "xyz"])),
+            "blocks": draw(sampled_from(["one", "by-size", "by-size-desc", "runs-1", "runs-2", "runs-4"])),
+            "dtype": draw(sampled_from(["int32", "int64"])),
+            "radius": draw(sampled_from([1.0, 1.0, 2.5])),
         }
     elif fmt == "esmf":
         mesh = draw(_mesh(big))
         d = {
-            "start_index": draw(st.sampled_from([None, 0, 1])),
-            "pad": draw(st.sampled_from([-1, -1, 0, 77])),
-            "dtype": draw(st.sampled_from(["int32", "int64"])),
+            "start_index": draw(sampled_from([None, 0, 1])),
+            "pad": draw(sampled_from([-1, -1, 0, 77])),
+            "dtype": draw(sampled_from(["int32", "int64"])),
             "lon360": draw(st.booleans()),
             "centers": draw(st.booleans()),
             "centres_lon360": draw(st.booleans()),
-            "extra_cols": draw(st.sampled_from([0, 1])),
+            "extra_cols": draw(sampled_from([0, 1])),
         }
     elif fmt == "geos":
         d = {"n": draw(st.integers(1, 4)), "lon360": draw(st.booleans()), "centers": draw(st.booleans())}
     elif fmt == "icon":
         mesh = draw(_mesh(big, tri_only=True))
-        d = {"dtype": draw(st.sampled_from(["int32", "int64"])), "edge_seed": draw(st.integers(0, 99))}
+        d = {"dtype": draw(sampled_from(["int32", "int64"])), "edge_seed": draw(st.integers(0, 99))}
     elif fmt == "geo":
         mesh = draw(meshgen.hull_mesh(4, 14, partial=True, planted=False))
-        d = {"driver": draw(st.sampled_from(["geojson", "shp"])), "multi": draw(st.sampled_from([0, 0, 2, 3]))}
+        d = {"driver": draw(sampled_from(["geojson", "shp"])), "multi": draw(sampled_from([0, 0, 2, 3]))}
     elif fmt == "vertices":
         mesh = draw(_mesh(big))
-        d = {"latlon": draw(st.booleans()), "container": draw(st.sampled_from(["ndarray", "list", "tuple"])), "via_open_grid": draw(st.booleans())}
+        d = {"latlon": draw(st.booleans()), "container": draw(sampled_from(["ndarray", "list", "tuple"])), "via_open_grid": draw(st.booleans())}
     elif fmt == "topology":
         mesh = draw(_mesh(big))
         d = {
-            "start_index": draw(st.sampled_from([0, 1])),
-            "fill": draw(st.sampled_from([None, -1, -999, "int64min"])),
-            "dtype": draw(st.sampled_from(["int32", "int64"])),
+            "start_index": draw(sampled_from([0, 1])),
+            "fill": draw(sampled_from([None, -1, -999, "int64min"])),
+            "dtype": draw(sampled_from(["int32", "int64"])),
             "via_dict": draw(st.booleans()),
             "lon360": draw(st.booleans()),
             "face_coords": draw(st.booleans()),
         }
-    disk = draw(st.sampled_from([False, False, False, True])) if fmt in ("ugrid", "mpas", "mpas-dual", "scrip", "exodus", "esmf", "icon") else False
+    disk = draw(sampled_from([False, False, False, True])) if fmt in ("ugrid", "mpas", "mpas-dual", "scrip", "exodus", "esmf", "icon") else False
     return {"format": fmt, "mesh": mesh, "dialect": d, "disk": disk}
 
 
@@ -239,10 +241,22 @@ def _faces_match(g, expected, fails, site, ctx, allow_reflection=False, as_multi
         fails.append(Failure("faces_match", site, "corner-count", f"distinct nodes per face {distinct[:12]} but the source faces have {want[:12]} corners (first difference at face {k})"))
         return
 
+    # position tolerance: 1e-7 rad, but never more than a fifth of the smallest distance between two distinct
+    # source corners (micro patches), so that a grid corner can only be taken for the source corner it is
+    pts = sorted({p for f in expected for p in f})
+    tol = 1e-7
+    if 1 < len(pts) <= 400:
+        P = np.asarray(pts, float)
+        d = np.linalg.norm(P[:, None, :] - P[None, :, :], axis=2)
+        d[d < 1e-15] = np.inf  # the same point listed twice / the two ends of a pole
+        dmin = float(d.min())
+        if np.isfinite(dmin):
+            tol = min(tol, 0.2 * dmin)
+
     def same(a, b):
-        if S.cyclic_equal_positions(a, b):
+        if S.cyclic_equal_positions(a, b, tol):
             return True
-        return allow_reflection and S.cyclic_equal_positions(a, list(reversed(b)))
+        return allow_reflection and S.cyclic_equal_positions(a, list(reversed(b)), tol)
 
     if as_multiset:
         left = list(range(len(expected)))
